@@ -19,6 +19,7 @@ func init() {
 		Assumptions: trustedBase,
 		Run: func(m *Model, s *Sink) {
 			m.RunPathAPI(s, "R-PATHAPI")                                 // the custom error page is looked up under its configured name: the extension is removed as a suffix, not as a set of characters
+			m.RunConfigSource(s, "R-RESPONSE")                           // the page chosen and the details shown follow the configuration as it is now
 			m.RunOwn(s, "R-OWN")                                         // the error page is rendered from its own program: no part of the failed page in it
 			m.RunTemplateLookup(s, "R-PATHAPI")                          // a template that does not exist is reported with the path of the file its name stands for
 			m.RunFormat(s, "R-FORMAT", m.reachableFns(m.Roots().Render)) // no text of a template, a path or an error is used as a printf format
